@@ -71,6 +71,13 @@ func (endpoint *PairVerify) ServeHTTP(response http.ResponseWriter, request *htt
 			return
 		}
 
+		if c, ok := session.Connection().(*hap.Connection); ok && c.RequestEndKnown() == false {
+			// Bytes which follow this request may have been read already – as if they were not encrypted
+			log.Info.Println("Cannot tell where the pair verify request ends")
+			response.WriteHeader(http.StatusBadRequest)
+			return
+		}
+
 		if secSession, err = crypto.NewSecureSessionFromSharedKey(ctlr.SharedKey()); err != nil {
 			log.Info.Panic("Could not setup secure session.", err)
 		}
